@@ -85,9 +85,12 @@ UE(e, L) ==
       [] e.k = "var" -> <<W(e.n)>>
       [] e.k = "bin" -> UOperand(e.l, e.op, "left", L) \o Gap(e.op, L) \o <<W(e.op)>> \o Gap(e.op, L)
                         \o UOperand(e.r, e.op, "right", L)
-      [] e.k = "un"  -> IF e.op = "not" THEN <<W("not"), W(" ")>> \o
-                              (IF e.e.k \in {"lit", "var", "spy"} THEN UE(e.e, L) ELSE Paren(UE(e.e, L)))
-                        ELSE <<W(e.op)>> \o (IF e.e.k \in {"lit", "var", "spy"} THEN UE(e.e, L) ELSE Paren(UE(e.e, L)))
+      \* the operand of a sign or of "not" carries its own suffixes ([index], .attr, |filter bind tighter than the
+      \* operator): with the fewest parentheses they are written without any
+      [] e.k = "un"  -> LET bare == IF L.par = "full" THEN {"lit", "var", "spy"}
+                                    ELSE {"lit", "var", "spy", "call", "mcall", "arr", "hash", "attr", "item", "filt"}
+                            operand == IF e.e.k \in bare THEN UE(e.e, L) ELSE Paren(UE(e.e, L))
+                        IN IF e.op = "not" THEN <<W("not"), W(" ")>> \o operand ELSE <<W(e.op)>> \o operand
       [] e.k = "cond" -> UAtomish(e.c, L) \o Sp(L) \o <<W("?")>> \o Sp(L) \o UAtomish(e.a, L)
                          \o Sp(L) \o <<W(":")>> \o Sp(L) \o UAtomish(e.b, L)
       [] e.k = "spy" -> <<W(e.fn), W("("), W("'"), W(e.id), W("'"), W(",")>> \o Sep(L) \o UE(e.e, L) \o <<W(")")>>
